@@ -295,6 +295,16 @@ Proof. exact cone_scale_axis. Qed.
 Print Assumptions C02_cone_scale_axis.
 
 
+Theorem C02_arc2_move_point_at : forall qcos qsin qpi a m t,
+  Point2D_move (Arc2D_point_at qcos qsin qpi a t) m =2= Arc2D_point_at qcos qsin qpi (Arc2D_move a m) t.
+Proof. exact arc2_move_point_at. Qed.
+Print Assumptions C02_arc2_move_point_at.
+
+Theorem C02_arc2_scale_point_at : forall qcos qsin qpi a k o t,
+  Point2D_scale (Arc2D_point_at qcos qsin qpi a t) k o =2= Arc2D_point_at qcos qsin qpi (Arc2D_scale a k o) t.
+Proof. exact arc2_scale_point_at. Qed.
+Print Assumptions C02_arc2_scale_point_at.
+
 (* ---- Plane transforms (proofs/C02_planes.v, about the generated code): for a plane with an orthonormal frame, every transform returns a
    plane with an orthonormal frame, with normal / x axis / origin the images of the old ones, containing the image of every point of
    the old plane.  sqrt enters as a morphism with sqrt 1 = 1 (the frame vectors are unit) *)
